@@ -846,6 +846,39 @@ fn gen_c17(tier: &str, rng: &mut Rng) -> Vec<Case> {
             cases.push(c);
         }
     }
+    // (b2) a malformed <style> element next to well-formed ones: each element is a sheet of its
+    // own, so the malformed one changes nothing (rich output: colours included)
+    let nb2 = if thorough { 20000 } else { 1500 };
+    for gi in 0..nb2 {
+        let inert: Vec<&str> = SOUP.iter().copied().filter(|t| !["color", "background"].contains(t)).collect();
+        let bad: String = match rng.below(3) {
+            0 => {
+                let rules: Vec<Rule> = (0..rng.range(1, 2)).map(|_| rand_rule(rng)).collect();
+                let full = print_sheet(rng, &rules, 0);
+                // cut inside the first selector / before the first declaration: nothing of it applies
+                let cut = rng.range(1, full.find('{').unwrap_or(1) + 1);
+                full.chars().take(cut).collect()
+            }
+            _ => (0..rng.range(1, 12)).map(|_| *rng.pick(&inert)).collect::<Vec<_>>().join(""),
+        };
+        let rules: Vec<Rule> = (0..rng.range(1, 3)).map(|_| rand_rule(rng)).collect();
+        let good = print_sheet(rng, &rules, 0);
+        let (html, _) = gen_doc(rng, doc_opts.clone());
+        let st = |x: &str| format!("<style>{}</style>", x.replace("</", "<\\/"));
+        let (with, base) = match rng.below(3) {
+            0 => (format!("{}{}{}", st(&bad), st(&good), html), format!("{}{}", st(&good), html)),
+            1 => (format!("{}{}{}{}", st(&good), st(&bad), st(&good), html), format!("{}{}{}", st(&good), st(&good), html)),
+            _ => (format!("{}<div>{}</div>{}", st(&bad), html, st(&good)), format!("<div>{}</div>{}", html, st(&good))),
+        };
+        let cfg = Cfg { deco: 2, doc_css: true, ..Default::default() };
+        let w = rng.range(5, 80);
+        for (role, h) in [("good_only", base), ("with_bad_style", with)] {
+            let id = cases.len();
+            let mut c = mk_case(id, 1, cfg.clone(), w, h.into_bytes(), Some(1), Meta::G { role, strs: vec![bad.clone(), good.clone()], nums: vec![] }, "doc_css_ignored");
+            c.group = 5_500_000 + gi;
+            cases.push(c);
+        }
+    }
     // (c) syntactic variants of one sheet style a document identically
     let nc = if thorough { 30000 } else { 1500 };
     for gi in 0..nc {
